@@ -243,6 +243,12 @@ func TestRaceDriver(t *testing.T) {
 			}
 		}
 		sort.Strings(fns)
+		if len(fns) == 0 {
+			// both accesses are in harness code: a defect of the scenario
+			// body, not a statement about the repository
+			R.Broken("race report without a repository frame (the scenario body races with itself):\n%s", rep)
+			continue
+		}
 		key := "C18|race|" + strings.Join(fns, "~")
 		lines := strings.Split(rep, "\n")
 		if len(lines) > 40 {
